@@ -1,7 +1,7 @@
 """C07 Channels deliver every value exactly once, in order, within capacity."""
 from hypothesis import strategies as st
 
-from .. import kpn, kpn_bulk, kpn_many
+from .. import kpn, kpn_bulk, kpn_many, kpn_native
 from .. import worker as W
 from ..lang import printer
 from ..oracle import crash_failure
@@ -39,7 +39,11 @@ RULE = ("Hypothesis draws a process network as a history of operations: 1-5 laun
         "fiber fills it within capacity, closes and drains it; or main produces for a launched consumer; or a launched "
         "producer feeds main. Expected output is exact: capacity() is the capacity asked for, the consumer's first value "
         "arrives when main has sent min(n, capacity) values, len() never exceeds the capacity, all n values arrive in "
-        "order and then nil.")
+        "order and then nil. Mode N (one case in ten): one end of a channel sits in a callback run by a native "
+        "(Iter.map under List.collect or list(), each, reduce, filter), 0-3 calls below main, the other end is a launched "
+        "fiber (0-3 calls deep, optionally launched by a starter fiber) that calls helper functions 0-4 calls deep and "
+        "may raise and catch an error before each channel operation; 1-4 values, synchronous or buffered. Expected "
+        "output is exact (the values in order, the fiber's own report, the number of errors caught).")
 ASSUMPTIONS = ["single-writer single-reader networks are determinate, so the model does not need the schedule",
                "the fiber scheduler is deterministic and not steered: scheduler states are reached by varying the "
                "program (launch order, capacities, operation order)"]
@@ -59,7 +63,7 @@ def strategy(hazards):
     # (one_of does not choose uniformly in the generate phase: the last branch came out in a quarter of the cases; the
     # bulk mode gets one middle value of an explicit selector)
     pool = [kpn.network(False, hazards), kpn.network(False, hazards), kpn.network(True, hazards), kpn_many.many_network(hazards)]
-    return st.tuples(st.integers(0, 8).flatmap(lambda k: kpn_bulk.bulk_network() if k == 5 else pool[k % 4]), st.integers(0, 7))
+    return st.tuples(st.integers(0, 9).flatmap(lambda k: kpn_bulk.bulk_network() if k == 5 else (kpn_native.native_network(hazards) if k == 2 else pool[k % 4])), st.integers(0, 7))
 
 
 def labels_of(net, m):
@@ -120,8 +124,33 @@ def run_bulk(prop, case, ctx, progress_only):
                    sample={k: net[k] for k in ("cap", "n", "shape", "boxed")}, runs=runs)
 
 
+def run_native(prop, case, ctx, progress_only):
+    """Mode N network (one channel end inside a native's callback): exact expected output, both builds."""
+    net, sel = case
+    src = kpn_native.build_source(net)
+    fail = None
+    runs = 0
+    for variant in ("dbg", "rel"):
+        r = ctx.worker(variant).run(src, schedule=W.EVERY_ALLOC if (sel == 0 and variant == "dbg") else W.NATURAL, budget=2_000_000)
+        runs += 1
+        if r.get("outcome") != "budget":
+            fail = crash_failure(prop, r, src, variant)
+        if fail is None:
+            fail = kpn_native.failure(prop, net, r, src, progress_only)
+        if fail is not None:
+            break
+    nontrivial = net["n"] >= 2
+    labels = ["mode:N", "model:complete", "role:" + net["role"], "native:" + net["native"]] + (["has-sync"] if net["cap"] == 0 else []) + \
+        (["fiber-catches"] if any(net["catch"]) else []) + (["both-ends-in-callbacks"] if net.get("fiber_native") else []) + \
+        (["nontrivial"] if nontrivial else [])
+    return Outcome(key=src, nontrivial=nontrivial, labels=labels, failure=fail,
+                   sample={k: net[k] for k in ("cap", "n", "role", "native", "cdepth", "pdepth", "hdepth")}, runs=runs)
+
+
 def run_case(case, ctx):
     net, sel = case
+    if net.get("mode") == "N":
+        return run_native(PROPERTY, case, ctx, False)
     if net.get("mode") == "M":
         return run_many(PROPERTY, case, ctx, kpn_many.safety_failure)
     if net.get("mode") == "B":
